@@ -87,6 +87,7 @@ type Op struct {
 	Strict  bool      `json:"strict"`
 	Params  SMap      `json:"params"`
 	Chain   []ChainEl `json:"chain"`
+	Fid     string    `json:"fid"` // facade object (created by an earlier "facade" op) this call goes through
 	Res     bool      `json:"res"` // last chain element is a Resource
 	Prog    []Step    `json:"prog"`
 	Method  string    `json:"method"`
@@ -200,6 +201,7 @@ type env struct {
 	cur    *obs
 	wraps  []wrapLog
 	faults map[string]string // fault plan of the request in flight: site -> panic value class
+	guards []guardRec
 }
 
 func splitList(s string) []string {
@@ -212,19 +214,46 @@ func splitList(s string) []string {
 	return out
 }
 
-func (e *env) mw(tag string) types.Middleware[*H] {
-	return types.MiddlewareFunc[*H](func(next *H, method, pattern, router string) *H {
-		e.wraps = append(e.wraps, wrapLog{tag, method, pattern, router})
-		return &H{tag: tag, next: next}
-	})
+type mwT struct {
+	e   *env
+	tag string
 }
 
+func (m *mwT) Middleware(next *H, method, pattern, router string) *H {
+	m.e.wraps = append(m.e.wraps, wrapLog{m.tag, method, pattern, router})
+	return &H{tag: m.tag, next: next}
+}
+
+func (e *env) mw(tag string) types.Middleware[*H] { return &mwT{e, tag} }
+
+type guardRec struct {
+	full []types.Middleware[*H]
+	n    int
+	sent types.Middleware[*H]
+}
+
+// mws hands the library a slice WITH SPARE CAPACITY whose hidden tail element is a sentinel: a callee that
+// appends in place instead of copying overwrites it, which clobbered() reports (recorded, judged by the spec).
 func (e *env) mws(tags []string) []types.Middleware[*H] {
-	out := make([]types.Middleware[*H], len(tags))
+	full := make([]types.Middleware[*H], len(tags)+1)
 	for i, t := range tags {
-		out[i] = e.mw(t)
+		full[i] = e.mw(t)
 	}
-	return out
+	sent := e.mw("zz-sentinel")
+	full[len(tags)] = sent
+	e.guards = append(e.guards, guardRec{full, len(tags), sent})
+	return full[:len(tags)]
+}
+
+func (e *env) clobbered() bool {
+	bad := false
+	for _, g := range e.guards {
+		if g.full[g.n] != g.sent {
+			bad = true
+		}
+	}
+	e.guards = e.guards[:0]
+	return bad
 }
 
 func (e *env) maybePanic(site string) {
